@@ -10,7 +10,11 @@ Inductive C12case :=
 | TgHist (g : tg) (steps : list (tgop * (option err * tg * bool)))
 (* atomicity of tier-level mutators (C13): state after a single call *)
 | TierCallI (t : itier) (o : opI) (oe : option err) (after : itier)
-| TierCallP (t : ptier) (o : opP) (oe : option err) (after : ptier).
+| TierCallP (t : ptier) (o : opP) (oe : option err) (after : ptier)
+(* the copy-returning textgrid-level edits: the whole textgrid that came back *)
+| TgCropC (g : tg) (a b : Z) (m : cropmode) (r : bool) (out : res tg)
+| TgEraseC (g : tg) (a b : Z) (s : bool) (out : res tg)
+| TgSpaceC (g : tg) (s d : Z) (m : spacemode) (out : res tg).
 
 Definition step_reports (g : tg) (o : tgop) : bool :=
   match o with
@@ -42,6 +46,9 @@ Definition C12corr (c : C12case) : bool :=
       match run_opP t o with
       | Ok t' => oerr_eqb12 oe None && ptier_eqb t' after
       | Err e => oerr_eqb12 oe (Some e) && ptier_eqb t after end
+  | TgCropC g a b m r out => res_eqb tg_eqb (tg_crop g a b m r) out
+  | TgEraseC g a b s out => res_eqb tg_eqb (tg_erase g a b s) out
+  | TgSpaceC g s d m out => res_eqb tg_eqb (tg_space g s d m) out
   end.
 
 Definition span_leb (g g' : tg) : bool :=
@@ -69,9 +76,32 @@ Fixpoint tghist_list_oracle (g : tg) (steps : list (tgop * (option err * tg * bo
       && tghist_list_oracle after rest
   end.
 
+(* the copy-returning edits act tier by tier: same names in the same order, each tier the result of
+   that tier's own method, all tiers and the textgrid sharing one span *)
+Fixpoint forall2b12 {A B} (f : A -> B -> bool) (l : list A) (m : list B) : bool :=
+  match l, m with
+  | [], [] => true
+  | x :: l', y :: m' => f x y && forall2b12 f l' m'
+  | _, _ => false
+  end.
+
+Definition tierwise_oracle (f : tier -> res tier) (g : tg) (out : res tg) (shared_span : bool) : bool :=
+  match out with
+  | Ok g' =>
+      forall2b12 (fun t t' => res_eqb tier_eqb (f t) (Ok t')) (tiers g) (tiers g')
+      && (negb shared_span
+          || forallb (fun t' => option_eqb Z.eqb (Some (tmin t')) (tgmin g') && option_eqb Z.eqb (Some (tmax t')) (tgmax g')) (tiers g'))
+  | Err _ => true
+  end.
+
 Definition C12oracle (c : C12case) : bool :=
   match c with
   | TgHist g steps => tghist_list_oracle g steps
+  | TgCropC g a b m r out =>
+      (* strict / truncated: all tiers share the textgrid's span; lax widens each tier just enough *)
+      tierwise_oracle (fun t => crop_tier t a b m r) g out (match m with Lax => false | _ => true end)
+  | TgEraseC g a b s out => tierwise_oracle (fun t => erase_tier t a b s) g out false
+  | TgSpaceC g s d m out => tierwise_oracle (fun t => space_tier t s d m) g out false
   | _ => true
   end.
 
@@ -89,6 +119,7 @@ Definition C13oracle (c : C12case) : bool :=
   | TgHist g steps => tghist_atomic_oracle g steps
   | TierCallI t _ oe after => match oe with Some _ => itier_eqb after t | None => true end
   | TierCallP t _ oe after => match oe with Some _ => ptier_eqb after t | None => true end
+  | _ => true
   end.
 
 Definition C12hyp (c : C12case) : bool :=
@@ -96,4 +127,5 @@ Definition C12hyp (c : C12case) : bool :=
   | TgHist g _ => nodupb (map tname (tiers g))
   | TierCallI t _ _ _ => wf_itierb t
   | TierCallP t _ _ _ => wf_ptierb t
+  | TgCropC g _ _ _ _ _ | TgEraseC g _ _ _ _ | TgSpaceC g _ _ _ _ => nodupb (map tname (tiers g))
   end.
